@@ -93,6 +93,22 @@ class err_handler(object):
         self.seg_node_added = False
         self.cur_ele_node = None
         self.cur_line = 0
+        self.pending_nodes = []
+
+    def _pend(self, node):
+        """
+        Remember a node that has just received an error (see pop_pending_nodes)
+        """
+        if node is not None and not any(n is node for n in self.pending_nodes):
+            self.pending_nodes.append(node)
+
+    def pop_pending_nodes(self):
+        """
+        @return: the error nodes that received an error since the last call
+        """
+        nodes = self.pending_nodes
+        self.pending_nodes = []
+        return nodes
 
     def accept(self, visitor):
         """
@@ -234,6 +250,7 @@ class err_handler(object):
         sout += 'ISA:%s - %s' % (err_cde, err_str)
         logger.error(sout)
         self.cur_isa_node.add_error(err_cde, err_str)
+        self._pend(self.cur_isa_node)
 
     def gs_error(self, err_cde, err_str):
         """
@@ -250,6 +267,7 @@ class err_handler(object):
         sout += 'GS:%s - %s' % (err_cde, err_str)
         logger.error(sout)
         self.cur_gs_node.add_error(err_cde, err_str)
+        self._pend(self.cur_gs_node)
 
     def st_error(self, err_cde, err_str):
         """
@@ -266,6 +284,7 @@ class err_handler(object):
         sout += 'ST:%s - %s' % (err_cde, err_str)
         logger.error(sout)
         self.cur_st_node.add_error(err_cde, err_str)
+        self._pend(self.cur_st_node)
 
     def seg_error(self, err_cde, err_str, err_value=None, src_line=None):
         """
@@ -278,6 +297,7 @@ class err_handler(object):
         try:
             self._add_cur_seg()
             self.cur_seg_node.add_error(err_cde, err_str, err_value)
+            self._pend(self.cur_seg_node)
         except:
             sout += 'No current segment in error_handler. '
         if src_line:
@@ -300,6 +320,7 @@ class err_handler(object):
         self._add_cur_ele()
         self.cur_ele_node.add_error(
             err_cde, err_str, bad_value)  # , pos, data_ele)
+        self._pend(self.cur_seg_node)
         sout = ''
         sout += 'Line:%i ' % (self.cur_seg_node.get_cur_line())
         sout += 'ELE:%s - %s' % (err_cde, err_str)
